@@ -221,7 +221,7 @@ impl FromStr for Point {
 
     // Parse an algebraic pair into a board position
     fn from_str(pair: &str) -> Result<Self, Self::Err> {
-        if pair.len() != 2 {
+        if pair.chars().count() != 2 {
             return Err("Invalid length for algebraic string");
         }
 
@@ -239,7 +239,10 @@ impl FromStr for Point {
             _ => return Err("Invalid column"),
         };
 
-        let row = BOARD_END - (r.to_digit(10).unwrap() as usize);
+        let row = match r.to_digit(10) {
+            Some(digit) => BOARD_END - (digit as usize),
+            None => return Err("Invalid row"),
+        };
         if !(BOARD_START..BOARD_END).contains(&row) {
             return Err("Invalid row");
         }
